@@ -20,7 +20,7 @@ SnapOK(b) == /\ Ev.serr = <<>>
 NewestId(m) == LET bx == CHOOSE x \in ToSet(Ev.s) : x.mb = m IN bx.msgs[Len(bx.msgs)].id
 
 TraceInit == l = 1 /\ IInit
-TrReset == /\ Is("reset") /\ Ev.histlen = HistLen
+TrReset == /\ Is("reset") /\ Ev.histlen = HistLen /\ Ev.cap = Cap
            /\ boxes' = [m \in Mailbox |-> <<>>] /\ stored' = <<>>
            /\ mon' = [k \in Monitor |-> [joined |-> FALSE, filter |-> "", due |-> <<>>]]
            /\ pop' = [open |-> FALSE, mb |-> "", snap |-> <<>>, marked |-> {}]
